@@ -37,18 +37,8 @@ Proof.
   rewrite (nth_map_enumerate _ ds k d0) by exact Hk. cbv beta iota. rewrite Hid. reflexivity.
 Qed.
 
-Lemma ids_view_refuted :
-  exists ids ds, NoDup ids /\
-    map (fun p => Some (fst p)) (with_ids true ids ds) <> spec_ids_of true ids ds.
-Proof.
-  exists [IInt 1%Z; IInt 2%Z; IInt 3%Z].
-  exists [mkIns None (IStr "Top") true false [IInt 1%Z];
-          mkIns None (IInt 3%Z) true false [IInt 1%Z];
-          mkIns None (IStr "2") true false [IInt 1%Z]].
-  split.
-  - repeat constructor; simpl; intuition discriminate.
-  - vm_compute. intros H. discriminate H.
-Qed.
+(* ids of id-less VIEW insertions (rank in the specification's payload display order):
+   Proofs/OrderCrosswalk.v *)
 
 (* --- anchor table --------------------------------------------------------------------------- *)
 Lemma anchor_table ids :
